@@ -41,11 +41,39 @@ def input_loop(ctx, f, txl):
     return ls[0], txv
 
 
+def expand_locals(f, e, depth=3):
+    """Copy of expression e with single-definition locals replaced by their defining expression (bounded depth)."""
+    import copy
+    from .. import dataflow as df
+    d = df.defs(f)
+
+    class T(ast.NodeTransformer):
+        def __init__(self, k):
+            self.k = k
+
+        def visit_Name(self, n):
+            if isinstance(n.ctx, ast.Load) and self.k > 0:
+                ds = d.get(n.id, [])
+                if len(ds) == 1 and isinstance(ds[0][0], ast.Assign) and len(ds[0][0].targets) == 1 \
+                        and isinstance(ds[0][0].targets[0], ast.Name) and ds[0][1] is not None:
+                    return T(self.k - 1).visit(copy.deepcopy(ds[0][1]))
+            return n
+    return T(depth).visit(copy.deepcopy(e))
+
+
 def output_loop(ctx, f, txl, txv):
-    ls = [s for s in walk_own(txl) if isinstance(s, ast.For) and s is not txl and f'{txv}.outputs' in norm(s.iter)]
+    """The loop of the tx loop that walks the outputs (its iterable derives from <tx>.outputs, also through locals)."""
+    ls = [s for s in walk_own(txl) if isinstance(s, ast.For) and s is not txl
+          and f'{txv}.outputs' in norm(expand_locals(f, s.iter))]
     if len(ls) != 1:
         raise AnalysisError(f'{f.key}: expected exactly one loop over {txv}.outputs')
     return ls[0]
+
+
+def output_positions_ok(f, ol, txv):
+    """The loop enumerates the unfiltered output list, so the loop index is the output's position in the transaction."""
+    it = norm(expand_locals(f, ol.iter))
+    return it in (f'enumerate({txv}.outputs)', f'{txv}.outputs')
 
 
 def gen_skip(loop):
